@@ -31,9 +31,26 @@ POOL = []
 _CACHE = {}
 
 
+def _marks_doc():
+    from sv.ref.cells import Bar, Chord, Doc, Header as H, Note, Null, Op, Rest
+    from sv.ref.docs import sig, lyr
+    return Doc([[H('**kern'), H('**text')], [sig('*clefG2', 'CLEF'), Null('*')], [Bar(number='1'), Bar(number='1')],
+                [Note('16', mark='qq', pitch='d', acc='#', decs=((3, 'L'),)), lyr('la')], [Note('4', mark='P', pitch='e'), Null('.')],
+                [Chord((Note('8', mark='q', pitch='c'), Note('8', dots=1, pitch='g', acc='-', decs=((3, 'J'),)))), lyr('li')],
+                [Bar(number='2'), Bar(number='2')], [Note('8', mark='p', pitch='f', decs=((0, '('),)), Null('.')], [Rest('4', mark='q'), lyr('lu')],
+                [Bar(double=True), Bar(double=True)], [Op('*-'), Op('*-')]])
+
+
+def _marks_doc_small():
+    from sv.ref.cells import Bar, Chord, Doc, Header as H, Note, Op
+    from sv.ref.docs import sig
+    return Doc([[H('**kern')], [sig('*clefG2', 'CLEF')], [Note('16', mark='qq', pitch='d', acc='#', decs=((3, 'L'),))], [Note('4', mark='P', pitch='e')],
+                [Chord((Note('8', mark='q', pitch='c'), Note('8', dots=1, pitch='g', acc='-', decs=((3, 'J'),))))], [Bar(double=True)], [Op('*-')]])
+
+
 def load(tier):
     global POOL
-    POOL = [docs.with_clef(d) for i, d in enumerate(docs.mini_docs()) if i in ((0, 1, 6) if tier == 'quick' else (0, 1, 2, 4, 6))] + docs.small()
+    POOL = [_marks_doc_small()] + [docs.with_clef(d) for i, d in enumerate(docs.mini_docs()) if i in ((0, 1, 6) if tier == 'quick' else (0, 1, 2, 4, 6))] + docs.small()
 
 
 class CatSet:
@@ -204,6 +221,48 @@ def ob_d(d: int, b: list[bool]) -> bool:
     return True
 
 
+# ------------------------------------------------------------------ C04.e the option set: measure ranges x encodings
+def ob_e(d: int, a: int, b: int, ids: int) -> bool:
+    """Header line and plain/extended relation also when the export starts at a later measure / selects spines."""
+    assume(0 <= d < 2 and 0 <= a <= 3 and 0 <= b <= 3 and 0 <= ids < 3)
+    return _e_body(choose(d, 2), choose(a, 4), choose(b, 4), choose(ids, 3))
+
+
+@native
+def _e_body(d, a, b, ids):
+    D = (_marks_doc(), docs.small()[0])[d]
+    doc, errs = kp.loads(D.text())
+    M = doc.measures_count()
+    kw = {}
+    if a:
+        kw['from_measure'] = a
+    if b:
+        kw['to_measure'] = b
+    heads = [h.text for h in D.rows[0]]
+    if ids:
+        # spine selection by TYPE (a measure range combined with spine_ids is not the subject of any property here)
+        kw['spine_types'] = (['**kern'], ['**kern', '**text'])[ids - 1]
+        heads = [h for h in heads if h in kw['spine_types']]
+    outs = []
+    for e in ENC:
+        try:
+            outs.append(kp.dumps(doc, encoding=e, **kw))
+        except Exception as ex:
+            outs.append(ex)
+    if any(isinstance(o, Exception) for o in outs):
+        check(all(isinstance(o, Exception) and type(o) is type(outs[0]) for o in outs), f'options {kw}: some encodings raise, others do not: {[type(o).__name__ for o in outs]}')
+        return True
+
+    def strip(s):
+        return ''.join(ch for ch in s if ch not in '@·')
+    for i, o in enumerate(outs):
+        first = o.split('\n')[0].split('\t') if o else []
+        check(first == ['**' + PREFIX[ENC_NAMES[i]] + h[2:] for h in heads], f'options {kw}: {ENC_NAMES[i]} header line {first}')
+    for plain, ext in ((0, 1), (2, 3), (4, 5)):
+        check(outs[plain].split('\n')[1:] == strip(outs[ext]).split('\n')[1:], f'options {kw}: {ENC_NAMES[plain]} is not {ENC_NAMES[ext]} minus separators')
+    return True
+
+
 def _shard_d(d, b):
     if len(b) != N:
         return 0
@@ -213,6 +272,10 @@ def _shard_d(d, b):
 UNTRACE = [('kernpy.core.tokens', 'TokenCategoryHierarchyMapper.valid'), ('kernpy.core.exporter', 'Exporter.export_string')]
 
 OBLIGATIONS = [
+    Ob(id='C04.e', fn=ob_e, title='header line and plain/extended relation under measure ranges and spine selection, six encodings',
+       shard_of=lambda d, a, b, ids: a + 4 * b, shards={'quick': 4, 'thorough': 4}, budget_s={'quick': 120, 'thorough': 600},
+       witnesses=[{'d': 0, 'a': 2, 'b': 2, 'ids': 0}], min_confirmed=60, enumerated='document (2), from_measure 0..3 (0 = omitted), to_measure 0..3, spine-type selection (3)',
+       bounds={'quick': '2 x 4 x 4 x 3 option sets x 6 encodings', 'thorough': 'same'}),
     Ob(id='C04.a', fn=ob_a, title='tokens with symbolic sub-token texts under a symbolic category set: plain == extended - separators, basic == full - signifiers per note',
        shard_of=lambda dur, d1, shape, p, a, clef, b: shape + 4 * p + 8 * a, shards={'quick': 16, 'thorough': 16}, budget_s={'quick': 170, 'thorough': 2400},
        witnesses=[{'dur': '4', 'd1': 'J', 'shape': 2, 'p': 0, 'a': 1, 'clef': 0, 'b': [True] * N}], min_confirmed=100,
@@ -229,5 +292,5 @@ OBLIGATIONS = [
        shard_of=_shard_d, shards={'quick': 16, 'thorough': 24}, budget_s={'quick': 170, 'thorough': 2400}, untrace=UNTRACE,
        witnesses=[{'d': 0, 'b': [True] * N}], min_confirmed=300,
        symbolic='category set (37 booleans) restricted to selections that keep durations or pitches and the header/terminator frame', enumerated='document selector',
-       bounds={'quick': '3 mini documents + 1 small document, six encodings each', 'thorough': '5 mini documents + 1 small document'}),
+       bounds={'quick': 'a document with grace / appoggiatura marks and chords + 3 mini documents + 1 small document, six encodings each', 'thorough': '+ 2 more mini documents'}),
 ]
